@@ -56,6 +56,8 @@ thread_local! {
 
 /// Called at the start of every run.
 pub fn reset_call_budget() {
+    crate::simclock::reset();
+    let _ = crate::simclock::take_counts();
     CALL_LIMIT.with(|c| c.set(0));
     LAST_STEPS.with(|l| l.set(0));
     RAN_AWAY.with(|r| r.set(false));
@@ -162,6 +164,17 @@ impl Sim {
         self.draw(2) == 1
     }
 
+    /// "Time passes" between two top-level calls: mostly none, sometimes a gap of a
+    /// millisecond, a second, a few seconds, an hour, a month (the simulated clock jumps).
+    pub fn idle_gap(&self) {
+        if self.draw(25) == 24 {
+            let ns = self.pick(&[1_000_000u64, 1_000_000_000, 3_000_000_000, 61_000_000_000, 3_600_000_000_000, 2_600_000_000_000_000]);
+            crate::simclock::advance(ns);
+            self.event(23, ns, 0, || format!("(simulated time passes: {} ms)", ns / 1_000_000));
+            self.count("idle_gap_of_simulated_time");
+        }
+    }
+
     pub fn u16_any(&self) -> u16 {
         self.draw(65536) as u16
     }
@@ -189,6 +202,7 @@ impl Sim {
         }
         s.hash = h;
         s.steps += 1;
+        crate::simclock::advance(crate::simclock::NS_PER_EVENT);
         if s.steps & HEARTBEAT_MASK == 0 {
             heartbeat();
         }
@@ -230,6 +244,7 @@ impl Sim {
         }
         s.hash_unordered = s.hash_unordered.wrapping_add(h);
         s.steps += 1;
+        crate::simclock::advance(crate::simclock::NS_PER_EVENT);
         if s.steps & HEARTBEAT_MASK == 0 {
             heartbeat();
         }
